@@ -71,7 +71,24 @@ PoolPart6 == {Union(a, b) : a \in UOperands, b \in UOperands}
              \cup {Union(Union(a, b), R1("child", NTAny)) : a \in UOperands, b \in {R1("descendant", NTName("a")), R1("attribute", NTAny)}}
              \cup {Path(FALSE, <<Step(hax, NTAny, <<Union(a, R1("attribute", NTAny))>>)>>) : hax \in {"child", "descendant"}, a \in UOperands}
              \cup {Path(FALSE, <<Step("child", NTAny, <<Call("not", <<Union(a, R1("attribute", NTAny))>>)>>)>>) : a \in UOperands}
-AllPools == PoolSets \o <<PoolPart5, PoolPart6>>
+\* part 7: compositions of the rewrites: two merge-rewritten steps in a row, '//' after a positional step, absolute paths
+\* and positional paths inside predicates, predicates on both sides of a positional predicate, filters over a union
+ChA(ps) == Step("child", NTName("a"), ps)
+ChS(ps) == Step("child", NTAny, ps)
+PoolPart7 ==
+    {Path(ab, <<ChS(<<>>), ChS(<<NumL(i)>>), ChS(<<NumL(j)>>)>>) : ab \in BOOLEAN, i \in 1 .. 2, j \in 1 .. 2}
+    \cup {Path(FALSE, <<ChS(<<NumL(i)>>), DosN, ChS(<<NumL(j)>>)>>) : i \in 1 .. 2, j \in 1 .. 2}
+    \cup {Path(TRUE, <<DosN, ChS(<<NumL(i)>>), DosN, ChA(<<>>)>>) : i \in 1 .. 2}
+    \cup {Path(TRUE, <<DosN, ChS(<<LastF>>), ChS(<<LastF>>)>>), Path(TRUE, <<DosN, ChS(<<Bin("=", PosF, NumL(2))>>), ChS(<<Bin("<", PosF, LastF)>>)>>)}
+    \cup {Path(FALSE, <<Step(hax, NTAny, <<pp>>)>>) : hax \in {"child", "descendant", "ancestor"},
+             pp \in {Path(TRUE, <<ChS(<<>>), ChA(<<>>)>>), Path(TRUE, <<DosN, ChA(<<NumL(2)>>)>>), Path(TRUE, <<DosN, ChA(<<R1("child", NTAny)>>)>>),
+                     Path(FALSE, <<ChS(<<NumL(1)>>), ChS(<<NumL(1)>>)>>), Path(FALSE, <<ChS(<<R1("child", NTAny)>>), ChS(<<NumL(2)>>)>>),
+                     Path(FALSE, <<Step("descendant", NTAny, <<R1("child", NTAny)>>), Step("descendant", NTName("a"), <<>>)>>),
+                     Call("not", <<Path(TRUE, <<DosN, ChA(<<NumL(2)>>)>>)>>)}}
+    \cup {Path(ab, <<DosN, ChS(<<NumL(i), pp>>)>>) : ab \in BOOLEAN, i \in 1 .. 2, pp \in {R1("child", NTAny), R1("following-sibling", NTAny), Call("not", <<R1("child", NTAny)>>)}}
+    \cup {Path(ab, <<DosN, ChS(<<pp, NumL(i)>>)>>) : ab \in BOOLEAN, i \in 1 .. 2, pp \in {R1("child", NTAny), Call("not", <<R1("child", NTAny)>>)}}
+    \cup {Filter(Union(R1("child", NTAny), R1("descendant", NTName("a"))), <<pp>>, <<>>) : pp \in {NumL(1), NumL(2), R1("child", NTAny), Call("not", <<R1("child", NTAny)>>)}}
+AllPools == PoolSets \o <<PoolPart5, PoolPart6, PoolPart7>>
 
 NewNodes(d) ==
     UNION { {Node("elem", n, "", "", p, "") : n \in ElemNames} \cup {Node("text", "", "", "", p, v) : v \in TextVals} : p \in Ids(d) }
@@ -105,7 +122,7 @@ ClaimedSteps(steps) ==
     \A i \in 1 .. Len(steps) :
        \A k \in 1 .. Len(steps[i].preds) : Positional(steps[i].preds[k]) /\ ~(steps[i].preds[k].t = "call" /\ steps[i].preds[k].f = "not" /\ ~UsesPos(steps[i].preds[k]))
                                                => (k = 1 /\ steps[i].ax = "child")
-Claimed(e) == IF e.t = "path" THEN ClaimedSteps(e.steps) ELSE TRUE
+Claimed(e) == IF e.t = "path" THEN ClaimedSteps(e.steps) ELSE IF e.t = "filter" THEN e.e.t = "path" ELSE TRUE
 
 VM2Refines ==
     (IsCase /\ Claimed(expr)) =>
